@@ -41,7 +41,7 @@ fn timeout_of(per_request: bool, key: u8) -> u64 {
 
 fn timeout_of_scaled(per_request: bool, key: u8, scale: u64) -> u64 {
     let t = base_timeout(per_request, key);
-    if t == UNBOUNDED || (per_request && key == 4) {
+    if t == UNBOUNDED || (per_request && (key == 4 || key == 5)) {
         t
     } else {
         t * scale
@@ -58,6 +58,9 @@ fn base_timeout(per_request: bool, key: u8) -> u64 {
     } else if per_request && key == 4 {
         // configured as 9.75 ms: tokio's timers fire at the next millisecond boundary
         10
+    } else if per_request && key == 5 {
+        // configured as 0.5 ms (less than a millisecond, but not zero)
+        1
     } else {
         20
     }
@@ -103,11 +106,17 @@ impl Scenario for Tl {
                 if r.key == 4 {
                     return Duration::from_micros(9750);
                 }
+                if r.key == 5 {
+                    return Duration::from_micros(500);
+                }
                 dur(timeout_of(true, r.key))
             }
             fn per_req_x101(r: &Req) -> Duration {
                 if r.key == 4 {
                     return Duration::from_micros(9750);
+                }
+                if r.key == 5 {
+                    return Duration::from_micros(500);
                 }
                 dur(timeout_of_scaled(true, r.key, 101))
             }
@@ -143,7 +152,7 @@ impl Scenario for Tl {
     }
     fn arrive_variants(&self, _w: &World, _x: &X, _c: usize) -> Vec<u8> {
         if self.per_request {
-            vec![0, 1, 2, 3, 4]
+            vec![0, 1, 2, 3, 4, 5]
         } else {
             vec![0]
         }
@@ -390,7 +399,7 @@ fn main() {
         rep.require_witness(w);
     }
     let depth = tier.pick(10, 15);
-    rep.bounds = json!({"depth": depth, "callers": "2 (thorough: 3 under the first select! seed)", "timeouts_ms": [20, 30, "Duration::MAX", 0, 9.75], "grid_ms": 10});
+    rep.bounds = json!({"depth": depth, "callers": "2 (thorough: 3 under the first select! seed)", "timeouts_ms": [20, 30, "Duration::MAX", 0, 9.75, 0.5], "grid_ms": 10});
     for cfg in configs(tier) {
         // three callers with five arrival variants each: a shallower bound keeps the level complete
         let d = if cfg.per_request && cfg.callers == 3 { 12 } else { depth };
